@@ -157,6 +157,20 @@ func (in *interp) suspend(st *val) {
 		panic(killSignal{})
 	}
 	in.depth = saved
+	// Locals that hold pointers (slices, tables, I/O values) are not part of a
+	// coroutine's saved state: after a resumption they are back at their zero
+	// value. (That is why the checker drops facts about them at a suspension
+	// point: "drop any facts involving args, this or ptr-typed local
+	// variables", lang/check/bounds.go; internal/cgen/var.go does not save
+	// them.)
+	for k := c.base; k < len(in.frames); k++ {
+		f := in.frames[k]
+		for id, typ := range f.ltypes {
+			if typ.HasPointers() {
+				f.locals[id] = in.zero(typ)
+			}
+		}
+	}
 	// The caller may pass different arguments on resumption...
 	in.frames[c.base].args = msg.args
 	// ...and each nested `?` call is re-issued by its caller with its argument
@@ -386,7 +400,8 @@ func driveHistory(p *program, tp *sim.Tape, observer func(*interp, *a.Func, *a.N
 			plain = append(plain, f)
 		}
 	}
-	stream := tp.Bytes(tp.Draw(40), tp.Draw(6))
+	// (up to 60 bytes: a read soup of ten 8-byte reads wants them)
+	stream := tp.Bytes(tp.Draw(61), tp.Draw(6))
 	res.stream, res.dstCap = stream, pol.dstCap
 	src := &ioBuf{}
 	dst := &ioBuf{data: make([]byte, pol.dstCap), writer: true}
